@@ -33,7 +33,7 @@ def run_case(cs, ctx):
     from matchingproblems.solver import Solver
     rng = random.Random(cs)
     big = rng.random() < 0.2
-    spec = sp.make_spec(rng, max_s=5 if big else 4, max_p=5 if big else 4, max_l=4)
+    spec = sp.make_spec_bf(rng, max_s=5 if big else 4, max_p=5 if big else 4, max_l=4)
     twopl = rng.random() < 0.5
     pc = rng.random() < 0.4
     opts = {'twopl': twopl, 'pc': pc, 'stab': False, 'crits': [], 'bf': True}
